@@ -13,7 +13,8 @@ import (
 const rule = "a case is a Go type assembled with reflect.SliceOf/MapOf/PtrTo/StructOf over the 14 scalar kinds and interface{} " +
 	"plus one value of it; families: hand-written corpus, bounded-exhaustive (all shapes of depth <= 2 x boundary values: min/max of " +
 	"every integer width, float extremes/subnormals/non-finite, nil/empty/1/2 elements), seeded random shapes of depth <= 4 (70% avoiding " +
-	"every known-finding input class), random structs with tags; a case is non-trivial when its value holds a non-empty container, a " +
+	"every known-finding input class), random structs with name tags and declared defaults (also on pointer fields); every case carries a " +
+	"history of 1-3 earlier values of the same type that the destination of a second conversion (ReflectTo) went through; a case is non-trivial when its value holds a non-empty container, a " +
 	"non-nil pointer/interface, or a scalar at the minimum or maximum of its kind; distinct = distinct (type, value) texts"
 
 func newCasesFile() *lib.CasesFile {
